@@ -4,6 +4,9 @@
                         text children) x every selector of at most MaxSteps compounds (element, class,
                         id, *, descendant / child, :nth-child(an+b)): the transcription of
                         Selector::do_matches agrees with the declarative meaning on every node.
+                        Three scopes (configurations MC_Selector, MC_SelectorId, MC_SelectorLong):
+                        more nodes without ids (Small), ids on nodes and in compounds, selectors of
+                        three compounds; the product of the three is 80.6 M states (checked once).
      Mode = "cascade":  every sequence of at most MaxDecls colour declarations drawn from
                         {agent, user, author, inline} x {normal, !important} x the five specificity
                         classes, all applying to one element: the MaybeUpdate fold in the code's
